@@ -55,6 +55,38 @@ Theorem C14_no_effect : forall ls1 l e ls2, try_from l = Err e ->
 Proof. exact rejected_line_no_effect. Qed.
 Print Assumptions C14_no_effect.
 
+(** Arguments have exactly the documented forms and values: registers, `^offset`, label
+    plus/minus offset, integer values (16-bit pattern), `Address+` (after the preliminary type
+    check that goto, assembly, break add and break remove apply), `Register | Address+`. *)
+Theorem C14_register : forall s r, register_try_parse s = Ok (Some r) <-> RegSyn s r.
+Proof. exact register_iff. Qed.
+Print Assumptions C14_register.
+
+Theorem C14_pc_offset : forall s v, pcoffset_try_parse s = Ok (Some v) <-> PcOffSyn s v.
+Proof. exact pcoffset_iff. Qed.
+Print Assumptions C14_pc_offset.
+
+Theorem C14_label : forall s name off,
+  label_try_parse s = Ok (Some (name, off)) <-> LabelSyn s name off.
+Proof. exact label_iff. Qed.
+Print Assumptions C14_label.
+
+Theorem C14_value : forall s v,
+  (check_naive_type [NInteger] s = Ok tt /\
+   exists x, parse_integer s false = Ok (Some x) /\ as_u16_cast x = Ok v) <-> ValueSyn s v.
+Proof. exact value_arg_iff. Qed.
+Print Assumptions C14_value.
+
+Theorem C14_memory_location : forall s m,
+  (check_naive_type [NInteger; NLabel; NPCOffset] s = Ok tt /\
+   memory_location_try_parse s = Ok (Some m)) <-> MemLocSyn s m.
+Proof. exact memloc_iff. Qed.
+Print Assumptions C14_memory_location.
+
+Theorem C14_location : forall s l, location_try_parse s = Ok (Some l) <-> LocSyn s l.
+Proof. exact location_iff. Qed.
+Print Assumptions C14_location.
+
 (** Non-vacuity. *)
 Example C14_nonvacuous_int :
   IntSyn (str "-0x1F") (-31) /\ IntSyn (str "#-12") (-12) /\ IntSyn (str "b+101") 5 /\
